@@ -227,6 +227,7 @@ func (c *Conn) ping(ctx context.Context, p string) error {
 	c.activePingsMu.Lock()
 	c.activePings[p] = pong
 	c.activePingsMu.Unlock()
+	simYield("ping.listed", c)
 
 	defer func() {
 		c.activePingsMu.Lock()
